@@ -105,16 +105,17 @@ def generate(rng, rep=None, odd_names=False, n_exe=2, n_lib=1, with_commands=Tru
             # two outputs - translation unit and header, which the Make backend routes through a stamp file - and a step with
             # one named output, each with options of its own; the program compiles and links what they produce
             # The steps of one translator share whatever a backend emits ONCE per tool (the Ninja `rule`, the Make
-            # `define`), so the shapes are MIXED and their order is drawn: default outputs (two, named after the source),
-            # two explicitly named outputs, one explicitly named output - always at least one step with one output and
-            # one with two, either of them first, sometimes a third step of any shape.
+            # `define`), so the shapes are MIXED and their order is drawn: default outputs (two, named after the source)
+            # and one explicitly named output - always at least one step of each shape, either of them first, sometimes
+            # a third step of either shape. (generated_source() accepts no list of two names, and directory= does not
+            # combine with the two default names: the two shapes are all the builtin offers for this tool.)
             yrng = random.Random(rng.random())
             yd = odd_name(yrng, 'yd', odd_names)
-            shapes = [yrng.choice(['default2', 'default2', 'named2']), 'named1']
+            shapes = ['default2', 'named1']
             if yrng.random() < 0.5:
                 shapes.reverse()
             if yrng.random() < 0.4:
-                shapes.insert(yrng.randint(0, 2), yrng.choice(['default2', 'named2', 'named1']))
+                shapes.insert(yrng.randint(0, 2), yrng.choice(['default2', 'named1']))
             p.yacc_shapes = list(shapes)
             gvars = []
             for k, shape in enumerate(shapes):
@@ -126,12 +127,8 @@ def generate(rng, rep=None, odd_names=False, n_exe=2, n_lib=1, with_commands=Tru
                 if shape == 'default2':
                     youts = [ysrc[:-2] + '.tab.c', ysrc[:-2] + '.tab.h']
                     L.append("%s = generated_source(file=%s, options=%s)" % (var, pyrepr(ysrc), pyrepr(yopts)))
-                elif shape == 'named2':
-                    ystem = yrng.choice(['ygen/', 'ygen/deep/', '']) + odd_name(yrng, 'two%d' % k, odd_names)
-                    youts = [ystem + '.c', ystem + '.h']
-                    L.append("%s = generated_source(%s, %s, options=%s)" % (var, pyrepr(youts), pyrepr(ysrc), pyrepr(yopts)))
                 else:
-                    youts = [yrng.choice(['ygen/', 'ygen/', '']) + odd_name(yrng, 'one%d' % k, odd_names) + '.c']
+                    youts = [yrng.choice(['ygen/', 'ygen/deep/', '']) + odd_name(yrng, 'one%d' % k, odd_names) + '.c']
                     L.append("%s = generated_source(%s, %s, options=%s)" % (var, pyrepr(youts[0]), pyrepr(ysrc), pyrepr(yopts)))
                 gvars.append(var + '[0]' if len(youts) == 2 else var)
                 p.steps.append({'kind': 'generate', 'source': ysrc, 'options': yopts, 'outputs': youts, 'owner': ename, 'shape': shape})
